@@ -806,11 +806,20 @@ package query
 //@   ensures imagesWritten == old(imagesWritten) + 1
 //@   modifies imagesWritten
 //@ func (*Transaction).Commit
-//@   property C01 C10 C11
+//@   property C01 C10 C11 C02
 //@   requires tx != nil && swapsStarted == 0
 //@   loop 1 invariant swapsStarted == 0
 //@   loop 2 invariant swapsStarted == 0
+//@   assert after call endingLineBreak: [ending-break-follows-the-file] !(exportOptions.Format == option.FIXED && exportOptions.SingleLine)
 //@   modifies *
+
+// C02: the dialect detected when the file was loaded is what the writer gets at COMMIT
+//@ func (*FileInfo).ExportOptions
+//@   property C02
+//@   ensures [dialect-fed-back] result.Format == f.Format && result.Delimiter == f.Delimiter && result.SingleLine == f.SingleLine && result.Encoding == f.Encoding && result.LineBreak == f.LineBreak
+//@   ensures [conventions-fed-back] result.WithoutHeader == f.NoHeader && result.EncloseAll == f.EncloseAll && result.JsonEscape == f.JsonEscape && result.PrettyPrint == f.PrettyPrint
+//@   ensures [positions-fed-back] same(result.DelimiterPositions, f.DelimiterPositions)
+//@   modifies fresh
 
 // ---------------------------------------------------------------------------------------------
 // C15: lifetime of blocks. A block taken from the pool is released exactly once, by the construct that took it.
@@ -1140,3 +1149,38 @@ package query
 //@   ensures [read-handler-released-before-return] !forUpdate && handlersOpened == old(handlersOpened) + 1 ==> handlersClosed >= old(handlersClosed) + 1
 //@   ensures [loaded-for-update-is-marked] err == nil && forUpdate && fileLoads == old(fileLoads) + 1 ==> view.FileInfo.ForUpdate
 //@   modifies *
+
+// ---------------------------------------------------------------------------------------------
+// C02 (thin): the CSV/TSV writer of the go-text dependency encloses a field only when asked to or when the field contains
+// the delimiter or a quotation mark; a field with a line break written bare splits its record on the next load. Its
+// assumed contract therefore requires the caller to ask for enclosure of every field that contains a line break, and
+// encodeCSV is proved to do so for the header and for every cell. (It did not: fix a CSV/TSV field ... is enclosed.)
+//@ axiom empty_text_has_no_line_break: !strings.ContainsAny("", "\r\n")
+//@ spec def lineBreaksEnclosed(fs []csv.Field) bool = forall(k, 0, len(fs), strings.ContainsAny(fs[k].Contents, "\r\n") ==> fs[k].Quote)
+//@ func go-text/csv.NewField
+//@   trusted assumed: constructor of the dependency (go-text/csv): stores its arguments
+//@   ensures result.Contents == contents && result.Quote == quote
+//@   modifies nothing
+//@ func (*go-text/csv.Writer).Write
+//@   trusted assumed from the dependency's source (go-text v1.6.0 csv/writer.go): a field is enclosed iff Quote is set or it contains the delimiter or a quotation mark
+//@   requires [line-breaks-are-enclosed] lineBreaksEnclosed(record)
+//@   modifies nothing
+//@ func (*go-text/csv.Writer).Flush
+//@   trusted assumed: flushes the buffered writer
+//@   modifies nothing
+//@ func go-text/csv.NewWriter
+//@   trusted assumed: allocates a writer
+//@   ensures result1 == nil ==> result0 != nil && fresh(result0)
+//@   modifies fresh
+//@ func ConvertFieldContents
+//@   trusted assumed: renders a value as text; writes nothing
+//@   modifies nothing
+//@ func encodeCSV
+//@   property C02
+//@   requires view != nil
+//@   loop 1 invariant lineBreaksEnclosed(fields) && len(fields) == len(view.Header)
+//@   loop 1 modifies fields[*]
+//@   loop 2 invariant lineBreaksEnclosed(fields) && len(fields) == len(view.Header)
+//@   loop 2 modifies fields[*]
+//@   loop 3 invariant lineBreaksEnclosed(fields) && len(fields) == len(view.Header)
+//@   loop 3 modifies fields[*]
